@@ -74,7 +74,7 @@ def case_of(p, i):
     tables = [{"name": "orders", "size_ivs": [[0, MAXROWS]], "rows": [], "cols": [
         {"n": "user_id", "t": {"k": "int", "ivs": [[0, 2]]}, "c": None},
         {"n": "k", "t": ktype, "c": None},
-        {"n": "v", "t": {"k": "opt", "t": {"k": "int", "ivs": [[0, 2]]}}, "c": None}]}]
+        {"n": "v", "t": {"k": "opt", "t": {"k": "int", "ivs": [[-2 if cfg.get("signed") else 0, 2]]}}, "c": None}]}]
     sql = "SELECT " + ("k, " if cfg["grouped"] else "") + AGG_SQL[cfg["agg"]] + " AS x FROM orders" + \
           (" WHERE v > 0" if cfg["where"] else "") + (" GROUP BY k" if cfg["grouped"] else "")
     rows = [[r["u"], r["k"], cell(r["v"])] for r in db]
@@ -89,13 +89,14 @@ def case_of(p, i):
     else:
         params = {"epsilon": 1.0, "delta": 1e-3}
         randoms = [{"noise": 1.0, "cap_seed": C.seed() + i}, {"noise": 0.1, "cap_seed": C.seed() + i}]
-    params.update({"tau_share": 0.5, "max_mult": float(cfg["mult"]), "max_mult_share": 1.0, "max_groups": cfg["cu"]})
+    # the share of the budget reserved for the release of the keys varies (0.5 is the default and a fixed point of 1 - s)
+    params.update({"tau_share": [0.5, 0.8, 0.25][(i // 2) % 3], "max_mult": float(cfg["mult"]), "max_mult_share": 1.0, "max_groups": cfg["cu"]})
     return {"id": i, "mode": "dp", "hash_pu": bool(i % 3), "pu": [["orders", [], "user_id"]], "sql": sql, "params": params,
             "tables": tables, "dbs": dbs, "randoms": randoms, "cfg": cfg, "units": units, "model": p}
 
 
 def explore(tier):
-    num, rows = (700, MAXROWS) if tier == "quick" else (6000, MAXROWS)
+    num, rows = (1000, MAXROWS) if tier == "quick" else (6000, MAXROWS)
     r = C.tlc("MC_DPPipeline", "MC_DPPipeline.cfg", "dp_sim", workers=1, timeout=3000, constants={"MaxRows": rows},
               extra=["-simulate", f"num={num}", "-depth", "12", "-seed", str(C.seed() + 7)])
     if r.rc != 0 or "Error:" in r.out:
@@ -257,10 +258,17 @@ def facts(case, o):
                 cb = clip.get(c, 0.0)
                 rec["sens"].append({"col": c, "unit": case["units"][di - 1], "dist2": N(d2), "c2": N(cb * cb * (1 + 1e-9) + 1e-12), "checked": bool(same_release)})
     # ---- C03
+    def effective(col, cb):
+        """the sensitivity the noise has to cover: the clip bound, or the largest contribution the declared types allow
+        (|v| <= 2, v^2 <= 4, at most MAXROWS rows per unit) when the clip bound is looser than that -- the range
+        propagation of v^2 over a signed column gives a clip bound of f64::MAX, which no sigma can be a multiple of"""
+        base = 1.0 if col.startswith("_COUNT_") else 4.0 if col.startswith("_SUM_SQUARE_") else 2.0
+        return min(cb, base * MAXROWS)
+
     for mp, col, s in agg_mechs:
         cb = clip.get(col, 0.0)
         if s > 0 and cb > 0:
-            rec["applied"].append(N(s / cb))
+            rec["applied"].append(N(s / effective(col, cb)))
     flat = flatten_events(o["dp_event"], [])
     for e in flat:
         if e["k"] == "Gaussian":
@@ -275,7 +283,7 @@ def facts(case, o):
         eps_tot, del_tot = dpr[0]["epsilon"], dpr[0]["delta"]
         eps_used = sum(e["epsilon"] for e in taus_ev)
         del_used = sum(e["delta"] for e in taus_ev)
-        ratios = [s / clip[c] for _, c, s in agg_mechs if s > 0 and clip.get(c, 0.0) > 0]
+        ratios = [s / effective(c, clip[c]) for _, c, s in agg_mechs if s > 0 and clip.get(c, 0.0) > 0]
         if ratios:
             d_each = (del_tot - del_used) / len(ratios)
             if d_each <= 0:
